@@ -22,6 +22,18 @@ STNAME = {v: k for k, v in STYPE.items()}
 XID_POOL = [0, 1, 2, 0x7fffffff, 0x80000000, 0xfffffffe, 0xffffffff]
 ECHO_SIZES = [1, 8, 64, 300, 65527]   # 65527 + header = the largest OpenFlow message
 PROBE_XID = 0x0c130000        # xids of the harness's own probes
+LONG_EXTRA = [1, 4, 8, 56]    # trailing bytes of a "long" message (by seed)
+
+
+def tname(t):
+  """OpenFlow type byte -> the spec's name of a controller message type."""
+  return rb.TYPE_NAMES[t] if t < len(rb.TYPE_NAMES) else "UNDEFINED"
+
+
+def frames(data):
+  """the framed messages in a byte string built by encode() (length fields are
+  always consistent with the bytes sent - only wrong for the message type)."""
+  return rb.split(data)
 
 
 def frame(k):
@@ -80,6 +92,10 @@ class Adapter(object):
     self.bind = {}       # concrete buffer id -> slot (outstanding)
     self.lastid = {}     # slot -> last concrete id bound to it
     self.reqs = []
+    self.pending = []    # messages written by the controller, not yet handed to the switch
+                         # (args.more: they share one receive buffer with the next message)
+    self.burst = []      # spec actions of the burst being assembled / last delivered
+    self.lrnd = random.Random("len|%s" % seed)
 
   # ---- helpers -----------------------------------------------------------
   def _snap(self):
@@ -152,11 +168,15 @@ class Adapter(object):
           self.lastid[buf] = c
       return {"t": "PACKET_IN", "buf": buf, "port": m["in_port"]}
     if t == rb.ERROR:
+      # what the error quotes: a message of the burst just delivered, with the xid the
+      # error carries, at least its first 64 bytes and nothing beyond it (compared on
+      # the 8-byte header: type, length, xid); reported as that message's type
       d = m["data"]
-      ok = any(len(d) >= min(64, len(q)) and d[:8] == q[:8] and len(d) <= len(q)
-               for q in self.reqs)
+      qs = [q for q in self.reqs
+            if len(d) >= min(64, len(q)) and d[:8] == q[:8] and len(d) <= len(q)
+            and struct.unpack_from("!I", q, 4)[0] == xid]
       return {"t": "ERROR", "xid": x, "et": m["etype"], "code": m["code"],
-              "data": "ok" if ok else "bad:%s" % d[:8].hex()}
+              "data": tname(qs[0][1]) if qs else "bad:%s" % d[:8].hex()}
     if t == rb.ECHO_REPLY:
       b = m["body"]
       return {"t": "ECHO_REPLY", "xid": x,
@@ -223,7 +243,7 @@ class Adapter(object):
 
   def _send(self, data):
     """push one controller message; exceptions out of POX become observations"""
-    self.reqs = [data]
+    self.reqs = frames(data)
     esc = None
     try:
       self.h.worker._push_receive_data(data)
@@ -254,6 +274,8 @@ class Adapter(object):
       return rb.vendor(0x00002320, b"\0\0\0\x0a", xid=x)
     if a == "BadType":
       return rb.msg(self.badtype, b"abcd", xid=x)
+    if a == "BadLen":
+      return self.badlen(args["k"], x)
     if a == "PacketOut":
       act = args["act"]
       ab = (b"" if act == 0 else rb.a_vendor(0x00002320, b"\0" * 8) if act == BADACT
@@ -326,6 +348,75 @@ class Adapter(object):
       return rb.queue_get_config_request(args["p"], xid=x)
     raise ValueError("unknown action %s %s" % (a, args))
 
+  def badlen(self, k, x):
+    """a message of a controller-to-switch type whose length field is wrong for the
+    type (framing stays consistent: the field is the number of bytes sent).  Every
+    one carries content that WOULD change what the switch reports if it were
+    executed anyway (config, port state, a flow)."""
+    r = self.lrnd
+    cut = lambda m, n: rb.header(m[1], n, x) + m[8:n]
+    ext = lambda m: (lambda n: rb.header(m[1], len(m) + n, x) + m[8:] + bytes(n))(r.choice(LONG_EXTRA))
+    bm = rb.match(wildcards=rb.FW_ALL & ~rb.FW_DL_TYPE, dl_type=ET_BADFLOW)
+    fm = rb.flow_mod(command=rb.FC_ADD, match_bytes=bm, actions=rb.a_output(1, 0), xid=x)
+    po = rb.packet_out(buffer_id=rb.NO_BUFFER, in_port=rb.OFPP_NONE, actions=rb.a_output(1, 0),
+                       data=frame("miss"), xid=x)
+    pm = rb.port_mod(1, self._hw(1), config=rb.PC_PORT_DOWN, mask=rb.PC_PORT_DOWN, xid=x)
+    fsb = rb.flow_stats_request_body(fmatch("all"), table_id=0xff, out_port=rb.OFPP_NONE)
+    if k == "features+":
+      return ext(rb.features_request(xid=x))
+    if k == "getcfg+":
+      return ext(rb.get_config_request(xid=x))
+    if k == "barrier+":
+      return ext(rb.barrier_request(xid=x))
+    if k == "setcfg+":
+      return ext(rb.set_config(flags=1, miss_send_len=77, xid=x))
+    if k == "portmod+":
+      return ext(pm)
+    if k == "qcfg+":
+      return ext(rb.queue_get_config_request(1, xid=x))
+    if k == "setcfg-":
+      return cut(rb.set_config(flags=1, miss_send_len=77, xid=x), r.choice([8, 10, 11]))
+    if k == "portmod-":
+      return cut(pm, r.choice([8, 16, 24, 31]))
+    if k == "qcfg-":
+      return cut(rb.queue_get_config_request(1, xid=x), r.choice([8, 10]))
+    if k == "flowmod-":
+      return cut(fm, r.choice([8, 40, 48, 71]))
+    if k == "packetout-":
+      return cut(po, r.choice([8, 12, 15]))
+    if k == "stats-":
+      return cut(rb.stats_request(rb.ST_DESC, xid=x), r.choice([8, 10, 11]))
+    if k == "vendor-":
+      return cut(rb.vendor(0x00002320, b"", xid=x), r.choice([8, 10, 11]))
+    if k in ("desc+", "table+"):
+      return rb.stats_request(STYPE["DESC" if k == "desc+" else "TABLE"], bytes(r.choice([1, 4, 8])), xid=x)
+    if k in ("flow-", "aggr-"):
+      return rb.stats_request(STYPE["FLOW" if k == "flow-" else "AGGREGATE"],
+                              fsb[:r.choice([0, 4, 40, 43])], xid=x)
+    if k == "flow+":
+      return rb.stats_request(rb.ST_FLOW, fsb + bytes(r.choice([1, 4, 8])), xid=x)
+    if k == "port-":
+      return rb.stats_request(rb.ST_PORT, rb.port_stats_request_body(1)[:r.choice([0, 2, 7])], xid=x)
+    if k == "port+":
+      return rb.stats_request(rb.ST_PORT, rb.port_stats_request_body(1) + bytes(r.choice([1, 4, 8])), xid=x)
+    if k == "queue-":
+      return rb.stats_request(rb.ST_QUEUE, rb.queue_stats_request_body(rb.OFPP_ALL)[:r.choice([0, 4, 7])], xid=x)
+    if k in ("flowmod-act0", "flowmod-actover"):
+      # the embedded action's own length: 0, or running past the end of the message
+      b = bytearray(fm)
+      struct.pack_into("!H", b, 72 + 2, 0 if k == "flowmod-act0" else r.choice([16, 24, 0xfff8]))
+      return bytes(b)
+    if k == "packetout-act0":
+      b = bytearray(po)
+      struct.pack_into("!H", b, 16 + 2, 0)
+      return bytes(b)
+    if k == "packetout-actover":
+      # actions_len claims more than the message holds
+      b = bytearray(po)
+      struct.pack_into("!H", b, 14, len(po) - 16 + r.choice([8, 16, 4000]))
+      return bytes(b)
+    raise ValueError("unknown malformed-length kind %r" % (k,))
+
   def _probe(self):
     """read the reported state back through the wire (read-only requests)."""
     try:
@@ -358,6 +449,8 @@ class Adapter(object):
         r2 = random.Random("%s|%s|%s" % (self.seed, a, sorted((args or {}).items())))
         r2.shuffle(self.xpool)
         self.echo_b1 = r2.randbytes(r2.choice(ECHO_SIZES))
+        self.lrnd = random.Random("len|%s|%s|%s" % (self.seed, a, sorted((args or {}).items())))
+    more = bool((args or {}).get("more"))
     if a == "Rx":
       self.reqs = []
       esc = None
@@ -372,11 +465,19 @@ class Adapter(object):
       except Exception as e:
         raise Machinery("C13 adapter cannot build %s %s: %s: %s" % (a, args, type(e).__name__, e))
       if a in ("PacketOut", "FlowMod") and args.get("slot"):
-        c = self._concrete(args["slot"])
-        out = self._send(data)
-        self.bind.pop(c, None)
-      else:
-        out = self._send(data)
+        # the id this message names is spent once the switch has read the message
+        self.bind.pop(self._concrete(args["slot"]), None)
+      if not self.pending:
+        self.burst = []
+      self.burst.append((a, args.get("xid")))
+      if more:
+        # pipelined: the controller has written the message, the switch has not been
+        # given the receive buffer yet - nothing can be observed
+        self.pending.append(data)
+        return {"out": []}
+      data = b"".join(self.pending) + data
+      self.pending = []
+      out = self._send(data)
     self.h.take_emitted()
     if self.snap_error:
       raise Machinery("C13 adapter cannot snapshot the switch state: " + self.snap_error)
@@ -388,8 +489,8 @@ class Adapter(object):
   def send_batch(self, msgs, cuts):
     """several controller messages in one stream, delivered in segments cut at
     the given offsets; returns everything the switch wrote for the batch."""
-    self.reqs = list(msgs)
     data = b"".join(msgs)
+    self.reqs = frames(data)
     esc = None
     pos = 0
     try:
@@ -411,18 +512,52 @@ class Adapter(object):
       exp = exp["exp"]
     if not isinstance(obs, dict) or "out" not in obs:
       return obs
-    r = {"outs": exp["outs"] if obs["out"] in exp["outs"] else [obs["out"]],
+    # exp.outs = the answers to this message alone (what the property talks about);
+    # exp.see = what the channel shows when the step ends (the answers to the whole
+    # burst, or nothing while the message waits in the receive buffer): compared
+    r = {"outs": exp["outs"],
+         "see": exp["see"] if obs["out"] in exp["see"] else [obs["out"]],
          "st": obs["st"] if "st" in obs else exp["st"]}
     return r
 
   def signature(self, st, obs):
-    return signature(st, obs)
+    sig = signature(st, obs)
+    if len(self.burst) > 1 and st["a"] != "Rx":
+      sig["pipelined"] = len(self.burst)         # messages read by the switch in one go
+      # the message of the burst whose answer is the first to deviate (by the xid of
+      # the answer the spec expects at that point)
+      sees = obs.get("see") if isinstance(obs, dict) else None
+      w = diff_stream(sees[0] if sees else None, (st.get("exp") or {}).get("see") or [[]], want=True)
+      if isinstance(w, dict) and "xid" in w:
+        who = [a for a, x in self.burst if x == w["xid"]]
+        if who:
+          sig["answer_to"] = who[0]
+    return sig
 
 
-def classify(out, a, args):
-  """observed output class of one step (for finding signatures)."""
-  if not isinstance(out, list):
-    return "adapter-exception"
+LEN_TYPE = {"features+": "FEATURES_REQUEST", "getcfg+": "GET_CONFIG_REQUEST", "barrier+": "BARRIER_REQUEST",
+            "setcfg": "SET_CONFIG", "portmod": "PORT_MOD", "qcfg": "QUEUE_GET_CONFIG_REQUEST",
+            "flowmod": "FLOW_MOD", "packetout": "PACKET_OUT", "vendor": "VENDOR"}
+ACT_TYPE = {"Hello": "HELLO", "EchoReq": "ECHO_REQUEST", "EchoReply": "ECHO_REPLY",
+            "FeaturesReq": "FEATURES_REQUEST", "GetConfigReq": "GET_CONFIG_REQUEST",
+            "SetConfig": "SET_CONFIG", "BarrierReq": "BARRIER_REQUEST", "Vendor": "VENDOR",
+            "BadType": "UNDEFINED", "PacketOut": "PACKET_OUT", "FlowMod": "FLOW_MOD",
+            "PortMod": "PORT_MOD", "StatsReq": "STATS_REQUEST", "QueueCfgReq": "QUEUE_GET_CONFIG_REQUEST"}
+
+
+def type_of(a, args):
+  """OpenFlow type name of the message spec action a(args) stands for (used only to
+  word finding signatures; the verdict compares with the spec's own `data`)."""
+  if a == "BadLen":
+    k = str(args.get("k"))
+    for pre, t in LEN_TYPE.items():
+      if k.startswith(pre):
+        return t
+    return "STATS_REQUEST"
+  return ACT_TYPE.get(a)
+
+
+def _special(out):
   ts = [m.get("t") for m in out]
   if "ESCAPED" in ts:
     return "escaped:" + [m for m in out if m["t"] == "ESCAPED"][0]["exc"]
@@ -430,6 +565,17 @@ def classify(out, a, args):
     return "closed"
   if "MALFORMED" in ts or "GARBAGE" in ts:
     return "malformed:" + ",".join(m.get("type", "") for m in out if m["t"] in ("MALFORMED",))
+  return None
+
+
+def classify(out, a, args):
+  """observed output class of one step (for finding signatures)."""
+  if not isinstance(out, list):
+    return "adapter-exception"
+  ts = [m.get("t") for m in out]
+  sp = _special(out)
+  if sp:
+    return sp
   if not out:
     return "none"
   if len(out) > 1:
@@ -438,10 +584,45 @@ def classify(out, a, args):
   if m.get("xid") is not None and m.get("xid") != args.get("xid") and m["t"] != "PACKET_IN":
     return "wrong_xid:" + str(m["t"])
   if m["t"] == "ERROR":
-    if m.get("data") != "ok":
+    if m.get("data") != type_of(a, args):     # quotes nothing / too little / another message
       return "error-data"
     return "error:%s/%s" % (m["et"], m["code"])
   return "reply:" + str(m["t"])
+
+
+def diff_stream(out, alts, want=False):
+  """first point where the stream observed for a pipelined burst leaves every stream
+  the spec allows (for finding signatures)."""
+  if not isinstance(out, list):
+    return None if want else "adapter-exception"
+  sp = _special(out)
+  if sp and not want:
+    return sp
+
+  def common(alt):
+    n = 0
+    while n < len(alt) and n < len(out) and alt[n] == out[n]:
+      n += 1
+    return n
+  best = max(alts or [[]], key=common)
+  i = common(best)
+  if want:        # the message the spec expects where the streams part
+    return best[i] if i < len(best) else None
+  if i >= len(out):
+    return "missing:%s" % best[i].get("t") if i < len(best) else "same"
+  m = out[i]
+  if i >= len(best):
+    return "extra:%s" % m.get("t")
+  w = best[i]
+  if m.get("t") != w.get("t"):
+    return "%s-for-%s" % (m.get("t"), w.get("t"))
+  if m.get("xid") != w.get("xid"):
+    return "wrong_xid:%s" % m.get("t")
+  if m.get("t") == "ERROR":
+    if m.get("data") != w.get("data"):
+      return "error-data"
+    return "error:%s/%s" % (m.get("et"), m.get("code"))
+  return "payload:%s" % m.get("t")
 
 
 def signature(st, obs):
@@ -450,11 +631,16 @@ def signature(st, obs):
   if isinstance(obs, dict) and "EXC" in obs:
     sig["observed"] = "adapter-exception:" + obs["EXC"]
     return sig
-  outs = obs.get("outs") if isinstance(obs, dict) else None
-  out = outs[0] if outs else None
-  sig["observed"] = classify(out, a, args)
-  alts = exp.get("outs") or [[]]
-  sig["expected"] = classify(alts[0], a, args)
+  sees = obs.get("see") if isinstance(obs, dict) else None
+  out = sees[0] if sees else None
+  alts = exp.get("see") or [[]]
+  if args.get("more") or exp.get("see") != exp.get("outs"):
+    # a message that waits in the receive buffer, or the read of a pipelined burst
+    sig["observed"] = "early-output" if args.get("more") and out else diff_stream(out, alts)
+    sig["expected"] = "burst"
+  else:
+    sig["observed"] = classify(out, a, args)
+    sig["expected"] = classify(alts[0], a, args)
   if out is not None and out in alts:
     # outputs agree: the probe after the step read back a different state
     sig["observed"] = "state"
